@@ -174,9 +174,11 @@ func (s *strategy) FillEntity(e *Ent, bucket *boltz.TypedBucket) {
 		if def.Parent != "" && !f.OnChild {
 			b = parentBucket
 		}
-		if def.Parent != "" && f.OnChild && !e.HasChild {
+		if def.Parent != "" && f.OnChild && !e.HasChild && !def.Extended {
 			continue
 		}
+		// an extended store is handed a bucket for every entity of its parent; a strategy reads its own fields from it
+		// like from any other (they are all absent when the entity has no data in this store)
 		b = bucketFor(b, f.Prefix, false)
 		if b == nil {
 			e.V[f.Name] = nilFor(f.Kind)
@@ -249,7 +251,7 @@ func readField(b *boltz.TypedBucket, f Field) any {
 	case KList, KLinks:
 		return b.GetStringList(f.Name)
 	case KMap:
-		return b.GetMap(f.Name)
+		return b.GetMap(f.StoreKey())
 	}
 	return nil
 }
@@ -324,7 +326,7 @@ func writeField(b *boltz.TypedBucket, f Field, v any, e *Ent, ctx *boltz.Persist
 			ctx.SetLinkedIds(f.Name, nil)
 			return
 		case KMap:
-			b.PutMap(f.Name, nil, nil, true)
+			b.PutMap(f.StoreKey(), nil, nil, true)
 			return
 		}
 		if ctx.IsCreate && e.NilAbsent {
@@ -359,7 +361,7 @@ func writeField(b *boltz.TypedBucket, f Field, v any, e *Ent, ctx *boltz.Persist
 	case KLinks:
 		ctx.SetLinkedIds(f.Name, append([]string{}, v.([]string)...))
 	case KMap:
-		b.PutMap(f.Name, v.(map[string]any), nil, true)
+		b.PutMap(f.StoreKey(), v.(map[string]any), nil, true)
 	}
 }
 
@@ -514,7 +516,7 @@ func Build(defs []*StoreDef) *Schema {
 					st.Sym[f.Name] = st.Store.AddPublicSetSymbol(f.Name, ast.NodeTypeString)
 				}
 			case KMap:
-				st.Store.AddMapSymbol(f.Name, ast.NodeTypeAnyType, f.Name, f.Prefix...)
+				st.Store.AddMapSymbol(f.Name, ast.NodeTypeAnyType, f.StoreKey(), f.Prefix...)
 				if !f.Private {
 					st.Store.MakeSymbolPublic(f.Name)
 				}
